@@ -14,19 +14,19 @@ RULE = ('decision level: case = (region set: up to 12 regions, size 2^5..2^32 in
         'subregion boundary -1/0/+1, or random) x read/write x privileged/unprivileged x SCTLR.M x SCTLR.BR; the real '
         'translate_address() outcome (physical address or abort kind, DFSR, DFAR) is compared with the reference. '
         'instruction level: load/store rows stepped in lock-step with the MPU programmed at random (code always '
-        'fetchable), addresses drawn around the programmed boundaries. non-trivial = decision taken by a region with '
+        'fetchable), addresses drawn around the programmed boundaries, SCTLR.A set in 40% of the cases and SCTLR.U drawn on ARMv6. non-trivial = decision taken by a region with '
         'restricted AP, a subregion, the background rule, or an abort; distinct = (deciding rule, AP, privilege, '
         'direction) / (row, abort kind)')
 ASSUMPTIONS = ['vf/ref/mem.py translate_p / check_permission transcribe B5.3 of the ARM ARM (highest-numbered matching '
                'enabled region, subregions for regions >= 256 bytes, AP table, background region)',
                'AP = 100 / 111 and malformed regions are UNPREDICTABLE and not judged']
-CTXS = [('v7-pmsa-r', 'off'), ('v6-pmsa-sec', 'off'), ('v6-pmsa', 'off')]
+CTXS = [('v7-pmsa-r', 'off'), ('v6-pmsa-sec', 'off'), ('v6-pmsa', 'off'), ('v6-pmsa-sec-impdef', 'off')]
 
 
-def gen_regions(rng, code=None):
-    """list of (base, rsize, sd, ap, enable)"""
+def gen_regions(rng, code=None, nreg=12):
+    """list of (base, rsize, sd, ap, enable); nreg = number of regions the configuration implements"""
     regs = []
-    n = rng.randrange(0, 12)
+    n = rng.randrange(0, nreg)
     for i in range(n):
         rsize = rng.choice([4, 5, 6, 7, 8, 9, 11, 11, 12, 12, 13, 15, 19, 23, 27, 30, 31])
         size = 1 << (rsize + 1)
@@ -40,9 +40,9 @@ def gen_regions(rng, code=None):
         ap = rng.choice([0, 1, 2, 3, 3, 5, 6, rng.randrange(8)])
         regs.append((base, rsize, sd, ap, 1 if rng.random() < 0.85 else 0))
     if code is not None:
-        while len(regs) < 11:
+        while len(regs) < nreg - 1:
             regs.append((0, 4, 0, 0, 0))
-        regs = regs[:11] + [(code & ~0x1F, 4, 0, rng.choice([0b011, 0b110, 0b010]), 1)]
+        regs = regs[:nreg - 1] + [(code & ~0x1F, 4, 0, rng.choice([0b011, 0b110, 0b010]), 1)]
     return regs
 
 
@@ -89,10 +89,17 @@ def run_shard(spec):
 
     def after(ctx, rng, desc):
         from vf import scen
-        regions = gen_regions(rng, code=int(desc['code'], 16) if 'code' in desc else scen.CODE)
+        regions = gen_regions(rng, code=int(desc['code'], 16) if 'code' in desc else scen.CODE, nreg=len(ctx.cpu.registers.drsrs))
         program(ctx.cpu, regions, m=1, br=rng.randrange(2))
         if ctx.cfg['arch_version'] >= 7:
             ctx.cpu.registers.sctlr.u = 1
+        elif rng.random() < 0.5:
+            ctx.cpu.registers.sctlr.u = rng.randrange(2)
+        if rng.random() < 0.4:
+            # strict alignment checking together with the protection unit: a misaligned access is the property's other way
+            # to "transfer no data, write back nothing, take a Data Abort whose DFSR/DFAR identify the fault"
+            ctx.cpu.registers.sctlr.a = 1
+        desc['sctlr_ua'] = (ctx.cpu.registers.sctlr.u, ctx.cpu.registers.sctlr.a)
         desc['regions'] = [(hex(b), rs, hex(sd), ap, en) for b, rs, sd, ap, en in regions if en]
         # point some registers at the programmed boundaries
         r = ctx.cpu.registers
@@ -124,7 +131,7 @@ def decision(spec):
     res['sets']['rules'] = set()
     for s in range(spec['sets']):
         ctx = ls.ctx(rng.choice(CTXS))
-        regions = gen_regions(rng)
+        regions = gen_regions(rng, nreg=len(ctx.cpu.registers.drsrs))
         m, br = (1, rng.randrange(2)) if rng.random() < 0.9 else (0, rng.randrange(2))
         addrs = interesting_addresses(rng, regions)
         for a in range(spec['addrs']):
